@@ -105,9 +105,60 @@ def pick_prevs(spec, ivals):
     return prevs[:6]
 
 
-def check_type(spec, part, k, only_case=None):
+def reconfigure(dt, old, new, forward=True):
+    """change the properties of the live datatype `dt` (built from spec `old`) so that it declares spec `new`, the way a
+    configuration override does it: Parameter.setProperty -> DataType.setProperty (an array forwards to its members)"""
+    kind = old[0]
+    assert kind == new[0]
+    names = {'double': ((1, 'min'), (2, 'max')), 'int': ((1, 'min'), (2, 'max')), 'scaled': ((2, 'min'), (3, 'max')),
+             'string': ((1, 'minchars'), (2, 'maxchars')), 'blob': ((1, 'minbytes'), (2, 'maxbytes')),
+             'array': ((2, 'minlen'), (3, 'maxlen'))}.get(kind, ())
+    for idx, name in names:
+        if old[idx] != new[idx]:
+            dt.setProperty(name, new[idx])
+    if kind == 'array' and old[1] != new[1]:
+        if forward and old[1][0] in ('double', 'int', 'scaled'):
+            # through the array, as a cfg entry `max=20` on an array parameter arrives
+            for idx, name in {'double': ((1, 'min'), (2, 'max')), 'int': ((1, 'min'), (2, 'max')),
+                              'scaled': ((2, 'min'), (3, 'max'))}[old[1][0]]:
+                if old[1][idx] != new[1][idx]:
+                    dt.setProperty(name, new[1][idx])
+        else:
+            reconfigure(dt.members, old[1], new[1], forward)
+    elif kind == 'tuple':
+        for m, o, n in zip(dt.members, old[1], new[1]):
+            reconfigure(m, o, n, forward)
+    elif kind == 'struct':
+        for (name, o), (_n, n) in zip(old[1], new[1]):
+            reconfigure(dt.members[name], o, n, forward)
+    return dt
+
+
+def reconf_pairs():
+    """(old spec, new spec): the same type with widened and with narrowed limits, top level and as member"""
+    leaf = [(('double', 0.0, 10.0, None, None), ('double', 0.0, 20.0, None, None)),
+            (('double', -5.0, 5.0, None, None), ('double', -2.0, 2.0, None, None)),
+            (('int', 0, 9), ('int', 0, 20)), (('int', -3, 3), ('int', 1, 2)),
+            (('scaled', 0.1, 0.0, 10.0), ('scaled', 0.1, 0.0, 20.0)), (('scaled', 2.0, -10.0, 10.0), ('scaled', 2.0, -4.0, 6.0)),
+            (('string', 0, 3, False), ('string', 0, 5, False)), (('string', 0, 3, False), ('string', 1, 2, False)),
+            (('blob', 0, 4), ('blob', 0, 6)), (('blob', 0, 4), ('blob', 2, 3))]
+    res = list(leaf)
+    for o, n in leaf:
+        res.append((('array', o, 0, 3), ('array', n, 0, 3)))
+        res.append((('array', o, 0, 3), ('array', n, 1, 2)))
+        res.append((('tuple', (('int', 0, 9), o)), ('tuple', (('int', 0, 9), n))))
+        res.append((('struct', (('a', o), ('b', ('bool',))), ('b',)), ('struct', (('a', n), ('b', ('bool',))), ('b',))))
+        res.append((('array', ('array', o, 0, 2), 0, 2), ('array', ('array', n, 0, 2), 0, 2)))
+    return res
+
+
+def check_type(spec, part, k, only_case=None, reconf_from=None):
     run = Runner(part)
-    dt = T.build(spec)
+    if reconf_from is None:
+        dt = T.build(spec)
+    else:
+        dt = reconfigure(T.build(reconf_from), reconf_from, spec)
+        dt.checkProperties()         # what Parameter.checkProperties does after the configuration was applied
     ivals = internal_values(dt, spec)
     prevs = pick_prevs(spec, ivals)
     structfree = not R.has_struct(spec)
@@ -137,6 +188,8 @@ def check_type(spec, part, k, only_case=None):
                 if pi == 0:
                     base = (kind, r)
                 case = case_json(spec, entry, x, pi)
+                if reconf_from is not None:
+                    case['reconf_from'] = T.tojson(reconf_from)
                 if kind == 'exc':
                     part.violation(f'C01:{entry}:T:{type(r).__name__}:{norm(r)}', case,
                                    f'{T.sstr(spec)} {entry} x={x!r} previous={prev!r}: unexpected {type(r).__name__}: {r}')
@@ -165,6 +218,8 @@ def check_type(spec, part, k, only_case=None):
                 part.traces += 1
                 part.outcomes[f'{top}:conv:{kind}'] += 1
                 case = case_json(spec, 'conv', x, 0)
+                if reconf_from is not None:
+                    case['reconf_from'] = T.tojson(reconf_from)
                 if kind == 'exc':
                     part.violation(f'C01:conv:T:{type(r).__name__}:{norm(r)}', case,
                                    f'{T.sstr(spec)} conversion of x={x!r}: unexpected {type(r).__name__}: {r}')
@@ -184,6 +239,15 @@ def shard_fn(shard):
     return part
 
 
+def reconf_fn(shard):
+    part = core.Part()
+    for old, new in shard:
+        n0 = len(part.violations)
+        check_type(new, part, 2, reconf_from=old)
+        part.extra['reconfigured_types'] += 1
+    return part
+
+
 def bounds(tier):
     return dict(k=2, maxdepth=3)
 
@@ -193,6 +257,9 @@ def run(ctx):
     types = T.all_types(ctx.tier, b['maxdepth'])
     shards = [(types[i:i + 4], b['k']) for i in range(0, len(types), 4)]
     ctx.pmap(shard_fn, shards, name='validate')
+    # the same questions to datatypes whose limits were changed after construction (configuration overrides)
+    pairs = reconf_pairs()
+    ctx.pmap(reconf_fn, [pairs[i:i + 4] for i in range(0, len(pairs), 4)], name='reconfigured')
     ctx.rule = ('enumeration: every type of the catalogue (all leaf kinds with boundary limits, containers to depth 3) x every '
                 f'candidate = valid value with <= {b["k"]} positions replaced from the bad/boundary catalogue (quick: 1 in depth-3 types) x up to 6 previous '
                 'values x entry points {wire: validate(import_value(x), prev); drv: validate(x, prev); conv: dt(x)}. '
@@ -208,5 +275,5 @@ def run(ctx):
 def replay(case):
     part = core.Part()
     spec = T.fromjson(case['spec'])
-    check_type(spec, part, 2, only_case=case)
+    check_type(spec, part, 2, only_case=case, reconf_from=T.fromjson(case['reconf_from']) if case.get('reconf_from') else None)
     return part
